@@ -78,6 +78,7 @@ func drawInject(rt *rapid.T) Case {
 		in.Flush = rapid.Permutation(append([]string(nil), hgen.NIs...)).Draw(rt, "order")
 	}
 	in.At = rapid.IntRange(1, max(1, len(belief.Ent))).Draw(rt, "at")
+	in.Resolved = rapid.Bool().Draw(rt, "resolved-entry-hook")
 	// the second actor mostly programs again a key that is installed now (and is being flushed)
 	keys := belief.Keys()
 	var installed []*gen.Op
